@@ -103,6 +103,9 @@ func checkC02(c *h.Check) {
 	c.Coverage["explorer"] = exp
 	sampleCase(c, cases, results)
 	c.Assumptions = append(c.Assumptions, "data independence: identities stand for all injector argument values")
+	if acc := c.Coverage["programs_accepted"].(int); acc < 1000 && c.Only == "" && c.NotRun == 0 {
+		c.Internalf("vacuous: only %d programs accepted and executed", acc)
+	}
 }
 
 // noCallSpecs: injectors whose result needs no provider call at all: an argument returned directly, an
